@@ -121,9 +121,9 @@ M = {
                                     'an entry Cell handed out by an Executor is registered as its computed constant (the repaired defect)'),
     'c06-column-code-int': ('C06', [(SRC + 'translators/column_cc_token_translator.py', "return str(token.in_cell.column + 1)", "return token.in_cell.column + 1")],
                             'COLUMN() emits an int as code: =SUM(COLUMN(),1) ends translation with TypeError (the repaired defect)'),
-    'c15-date-only-rejected': ('C15', [(CTX, "        start_date = self._at_midnight(start_date)\n        if not isinstance(start_date, datetime.datetime):\n            return '#VALUE!'", "        if not isinstance(start_date, datetime.datetime):\n            return '#VALUE!'"),
-                                       (ABS, "        start_date = self._at_midnight(start_date)\n        if not isinstance(start_date, datetime.datetime):\n            return '#VALUE!'", "        if not isinstance(start_date, datetime.datetime):\n            return '#VALUE!'")],
-                               'EDATE rejects date-only values again (the repaired defect)'),
+    'c15-date-only-cells-not-lifted': ('C15', [(CTX, "            values[cell_uid] = self._at_midnight(method(self))", "            values[cell_uid] = method(self)"),
+                                               (CTX, "        start_date = self._at_midnight(start_date)\n        if not isinstance(start_date, datetime.datetime):\n            return '#VALUE!'", "        if not isinstance(start_date, datetime.datetime):\n            return '#VALUE!'")],
+                                       'date-only workbook cells (ISO-dates files) reach EDATE as datetime.date again (both layers removed: the lifting where a value enters, d5a9303, and the one inside EDATE, 27ab11f - either alone is an equivalent mutant)'),
     'c02-empty-sheet-prefix-accepted': ('C02', [(SRC + 'tokens/regexp_tokens/__init__.py', "regexp = r'((\\'([^\\'!]+?)\\'|(\\w+?))!)?\\$?([A-Z]+)\\$?(\\d+)'", "regexp = r'((\\'([^\\'!]*?)\\'|(\\w*?))!)?\\$?([A-Z]+)\\$?(\\d+)'")],
                                         '=!A1 and =\'\'!A1 read the own sheet again (the repaired defect)'),
     'c18-text-cell-with-equals-as-formula': ('C18', [(SRC + 'translators/cell_translator.py', " and not isinstance(cell.value, TextCellValue):", ":")],
